@@ -106,6 +106,7 @@ type Interp struct {
 	onCall func(cl *Closure, args []Value)
 	onRet  func(cl *Closure, args []Value, res []Value)
 	nilPanics bool
+	defers    *[]deferred // deferred calls of the function being executed
 	templateData *Obj // the data object the template was executed on (set by the Execute model)
 }
 
@@ -121,6 +122,12 @@ func newInterp(r *Repo) *Interp { return newInterpFor(r, "tree") }
 
 // nilDeref is raised instead of undecided when nilPanics is set and the
 // interpreted code dereferences a nil pointer: the real code would panic.
+type deferred struct {
+	fn   Value
+	args []Value
+	at   ast.Node
+}
+
 type nilDeref struct{ pos string }
 
 // goPanic: another run-time panic of the interpreted code (index or slice
@@ -312,6 +319,16 @@ func (it *Interp) exec(s ast.Stmt, env *Env) ctrl {
 		} else {
 			it.store(x.X, env, n-1)
 		}
+	case *ast.DeferStmt:
+		if it.defers == nil {
+			it.fail(s, "defer outside a function the interpreter entered")
+		}
+		fn := it.eval(x.Call.Fun, env)
+		var args []Value
+		for _, a := range x.Call.Args {
+			args = append(args, it.evalCopy(a, env))
+		}
+		*it.defers = append(*it.defers, deferred{fn, args, x})
 	case *ast.IfStmt:
 		e := newEnv(env)
 		if x.Init != nil {
@@ -1407,6 +1424,9 @@ func (it *Interp) invoke(at ast.Node, f *Closure, args []Value) []Value {
 		it.onCall(f, args)
 	}
 	saved := it.retVals
+	savedDefers := it.defers
+	var frame []deferred
+	it.defers = &frame
 	it.retVals = nil
 	c := it.execBlock(f.body.List, env)
 	var res []Value
@@ -1417,11 +1437,39 @@ func (it *Interp) invoke(at ast.Node, f *Closure, args []Value) []Value {
 			res = append(res, env.lookup(it.info.Defs[n]).v)
 		}
 	}
+	if len(frame) > 0 {
+		// return values are stored into named results, deferred calls run last-in
+		// first-out and may change them
+		if len(results) > 0 && len(res) == len(results) {
+			for i, n := range results {
+				env.lookup(it.info.Defs[n]).v = res[i]
+			}
+		}
+		it.runDefers(&frame)
+		if len(results) > 0 {
+			res = nil
+			for _, n := range results {
+				res = append(res, env.lookup(it.info.Defs[n]).v)
+			}
+		}
+	}
+	it.defers = savedDefers
 	it.retVals = saved
 	if it.onRet != nil {
 		it.onRet(f, args, res)
 	}
 	return res
+}
+
+func (it *Interp) runDefers(frame *[]deferred) {
+	for len(*frame) > 0 {
+		d := (*frame)[len(*frame)-1]
+		*frame = (*frame)[:len(*frame)-1]
+		saved := it.retVals
+		it.retVals = nil
+		it.callValue(d.at, d.fn, d.args)
+		it.retVals = saved
+	}
 }
 
 func (it *Interp) convert(at ast.Node, t types.Type, v Value) Value {
